@@ -237,23 +237,35 @@ def project(script, i, o):
 def history_monitor(script, outs):
     """Independent Python cross-check of the implementation's answers (regex / zlib.decompress)."""
     bad = []
-    seen_flows = set()
+    seen_flows, bound = set(), {}
     for i, f in enumerate(script.frames):
         r = request_of(f)
         if r is None:
             continue
         kind, p = r
+        later = False
         if kind == "tcp":
-            # only the first data segment of a flow is judged here: later ones go to the responder the flow is bound to
+            # the first data segment of a flow is judged on its own; a later one goes to the responder the flow is bound
+            # to, so it is judged only when it is a request for THAT responder (an identification string on a flow whose
+            # first segment was answered as SSH, a Gh0st payload on a flow whose first segment was answered as Gh0st)
             pf = net.parse_frame(f)
-            flow = (pf.ip_src, pf.ip_dst, pf.sport, pf.dport)
-            if flow in seen_flows:
-                continue
-            seen_flows.add(flow)
+            flow = (script.cfg.key, pf.ip_src, pf.ip_dst, pf.sport, pf.dport)
+            later = flow in seen_flows
+            if not later:
+                seen_flows.add(flow)
         e = expected(p)
         if e is None:
             continue
         a = app_of(kind, outs[i])
+        if later:
+            if bound.get(flow) != e[0]:
+                continue
+        elif kind == "tcp":
+            pl = a[-1] if a[0] == "R" and isinstance(a[-1], bytes) else None
+            if e[0] == "ghost" and ghost_ok(pl):
+                bound[flow] = "ghost"
+            elif e[0] == "ssh" and e[1] and pl == SERVER_ID:
+                bound[flow] = "ssh"
         if a[0] == "P":
             bad.append((i, "panic on %r" % p[:40]))
             continue
